@@ -10,6 +10,7 @@
 #include "message.h"
 #include "event.h"
 #include "types.h"
+#include <sys/uio.h>
 
 #include "drv_event_common.h"
 
@@ -24,7 +25,7 @@ int main(void)
 		if (line[0] == '#' || line[0] == '\n') { fputs(line, stdout); continue; }
 		drv_split(line);
 		logn = 0;
-		cur_res = 0; cur_zero = 0;
+		cur_res = 0; cur_zero = 0; cur_nest = 0; in_nest = 0;
 		if (drv_nw < 2 || strcmp(drv_w[0], "e")) { puts("bad-op"); continue; }
 		const char *op = drv_w[1];
 		uintptr_t id;
@@ -64,7 +65,38 @@ int main(void)
 			int ret = mpt_dispatch_emit(DISP, &ev);
 			result_ret(ret, ev.id);
 		}
-		else if (!strcmp(op, "emit") && drv_nw == 5 && !strcmp(drv_w[2], "msg")) {
+		else if (!strcmp(op, "hashf") && drv_nw == 4) {
+			/* mpt_dispatch_hash with the message given in fragments "<hex>,<hex>,..." ("-" = empty fragment), each in a
+			 * block of exactly its size */
+			MPT_STRUCT(event) ev = MPT_EVENT_INIT;
+			MPT_STRUCT(message) msg = MPT_MESSAGE_INIT;
+			struct iovec vec[16];
+			uint8_t *blk[17];
+			size_t nf = 0, i;
+			int bad = 0;
+			char *p = drv_w[2];
+			if (parse_res(drv_w[3])) { puts("bad-op"); continue; }
+			while (p && !bad) {
+				char *c = strchr(p, ',');
+				size_t dlen; int isnull;
+				if (c) *c = 0;
+				if (nf >= 16 || drv_parse_data(p, &blk[nf], &dlen, &isnull)) bad = 1;
+				else if (isnull) { free(blk[nf]); bad = 1; }
+				else {
+					if (nf) { vec[nf-1].iov_base = blk[nf]; vec[nf-1].iov_len = dlen; }
+					else { msg.base = blk[0]; msg.used = dlen; }
+					++nf;
+				}
+				p = c ? c + 1 : 0;
+			}
+			if (bad) { for (i = 0; i < nf; i++) free(blk[i]); puts("bad-op"); continue; }
+			msg.cont = vec; msg.clen = nf - 1;
+			ev.msg = &msg;
+			int ret = mpt_dispatch_hash(DISP, &ev);
+			result_ret(ret, ev.id);
+			for (i = 0; i < nf; i++) free(blk[i]);
+		}
+		else if (!strcmp(op, "emit") && drv_nw == 5 && (!strcmp(drv_w[2], "msg") || !strcmp(drv_w[2], "cmd"))) {
 			MPT_STRUCT(event) ev = MPT_EVENT_INIT;
 			MPT_STRUCT(message) msg = MPT_MESSAGE_INIT;
 			uint8_t *dat; size_t dlen; int isnull;
@@ -72,6 +104,7 @@ int main(void)
 			if (isnull) { free(dat); puts("bad-op"); continue; }
 			msg.base = dat; msg.used = dlen;
 			ev.msg = &msg;
+			cur_nest = drv_w[2][0] == 'c';
 			int ret = mpt_dispatch_emit(DISP, &ev);
 			result_ret(ret, ev.id);
 			free(dat);
